@@ -48,7 +48,7 @@ MANIFEST = dict(
                 "the glibc/CPython library models (validated by their own streams, not verified); name resolution "
                 "and the non-ASCII idna branch are oracle parameters; the regex engine is validated against, not "
                 "derived from. shlex.split of SSHUTTLE_ARGS and argparse's option recognition are outside. The model "
-                "follows the repaired IPv6 expression (proposed_fixes/C16-embedded-ipv4.diff: class [\\w:.]); the "
+                "follows the repaired IPv6 expression (fix commit 16080e8: class [\\w:.]); the "
                 "pre-fix code rejects embedded-IPv4 literals (finding F15, C16_v6_embedded_orig_false). The general "
                 "IPv6 spelling theorem and the host:port branch of parse_hostport are _partial (instances + "
                 "correspondence only)."),
